@@ -218,8 +218,8 @@ func buildWorld(full []*world.FullNode, state string) *wctx {
 
 type snap struct {
 	ledger, parked, cache, peers, hooks string
-	nParked, flash                     int
-	parkedV                            []accountant.VerifParked
+	nParked, flash                      int
+	parkedV                             []accountant.VerifParked
 }
 
 func hx(b []byte) string { return hex.EncodeToString(b) }
